@@ -24,6 +24,7 @@ import time
 
 from lib.framework import Check, enc, time_limit, TimeLimit, VERIF
 from gen import c13_profiles, relib
+from harness.c13_valuetext import ValueTextMixin
 
 FOLD_SPECIAL = 'İıſK'      # non-ASCII letters that re.I folds onto ASCII letters
 UNITS = ['em', 'ex', 'px', 'in', 'cm', 'mm', 'pt', 'pc']
@@ -388,7 +389,7 @@ def gen_nonmember(types, rng):
 
 
 # ----------------------------------------------------------------------------------------------
-class C13(Check):
+class C13(ValueTextMixin, Check):
     id = 'C13'
     props_module = 'CssVerif.Props.C13'
     driver_exe = 'drv_c13'
@@ -462,7 +463,8 @@ class C13(Check):
         self.salt = getattr(self, 'salt', '')
         saved_default = self.P._defaultProfiles
         try:
-            for name in ('run_corpus', 'corr_acc', 'corr_vwp', 'corr_props_and_sheets', 'oracle_numbers_prefs',
+            for name in ('run_corpus', 'corr_acc', 'corr_vwp', 'corr_props_and_sheets', 'corr_value_text',
+                         'oracle_numbers_prefs',
                          'oracle_moved_properties', 'oracle_spelling_roundtrip_paths', 'oracle_grammar',
                          'oracle_annotates', 'corr_valid_only', 'oracle_unicode_fold'):
                 ctx.phase(getattr(self, name), ctx)
